@@ -73,7 +73,9 @@ func (r *Registry) PushBlobChunkedResume(ctx context.Context, repoName, id strin
 		}, id)
 		repo.uploads[b.ID()] = b
 	}
+	b.mu.Lock()
 	b.checkStartOffset = offset
+	b.mu.Unlock()
 	return b, nil
 }
 
